@@ -5,8 +5,9 @@ Usage: try_mutant.py <seeded name e.g. C02-a> [property ids ...]   (default: the
 import os, subprocess, sys
 name = sys.argv[1]
 props = sys.argv[2:] or [name.split("-")[0]]
-wt = ("/tmp/mut2/%s" if name.split("-")[1] in "cd" else "/tmp/mut3/%s" if name.split("-")[1] in "efgh" else "/tmp/mut/%s") % name.split("-")[0]
+wt = "/tmp/mutx/%s" % name.split("-")[0]  # scratch worktree of /repo (created on demand; remove with `git -C /repo worktree remove --force`)
 if not os.path.isdir(wt):
+    os.makedirs(os.path.dirname(wt), exist_ok=True)
     subprocess.check_call(["git", "-C", "/repo", "worktree", "add", "-q", "--detach", wt, "HEAD"])
 patch = "/verif/seeded/%s/patch.diff" % name
 subprocess.check_call("git checkout -q -- . && git clean -fdq -e target", shell=True, cwd=wt)
